@@ -19,9 +19,9 @@
 (* TLC in MC_C17; Trace_C17 re-uses A and B on executions recorded from the real code.   *)
 EXTENDS GlomData
 
-CONSTANTS PullMutant,        \* "none" | "reverse" | "takewhile_drain"   (mechanism mutants, B)
-          BuildMutant,       \* "none" | "inplace" | "sharekw"           (mechanism mutants, C)
-          SentinelCarried    \* TRUE: _add_op passes the base sentinel on; FALSE: as in the code
+CONSTANTS PullMutant,        \* "none" | "reverse" | "takewhile_drain"              (mechanism mutants, B)
+          BuildMutant        \* "none" | "inplace" | "sharekw" | "dropsentinel"    (mechanism mutants, C;
+                             \*   "dropsentinel" = _add_op as it was before commit 54a8dd1)
 
 INF == 999                   \* "not determined inside the horizon"
 
@@ -181,9 +181,11 @@ NeedTable(st, X) == NeedSweep(EvTable(st, X), Ev(X), 0, <<>>)
 Need(ntab, e) == IF e = 0 THEN 0 ELSE IF e <= Len(ntab) THEN ntab[e] ELSE INF
 
 \* what the underlying functions are documented to read ahead of what they return:
-\* windowed_iter fills its window (size - 1) when created; islice with a step consumes up to stop
+\* windowed_iter fills its window (size - 1) when created; islice consumes its input up to
+\* max(start, stop) (itertools docs: zip(range(max(start, stop)), iterable)), i.e. up to step - 1
+\* items past the last selected one, and start items when nothing is selected
 LookAhead(st) == CASE st.kind = "windowed" -> st.a - 1
-                   [] st.kind = "slice" -> st.c - 1
+                   [] st.kind = "slice" -> IF st.b # -1 /\ st.a >= st.b THEN st.a ELSE st.c - 1
                    [] OTHER -> 0
 CapEv(X, n) == IF n <= Ev(X) THEN n ELSE IF X.fin = "end" THEN Ev(X) ELSE INF
 
@@ -205,7 +207,7 @@ FirstTrue(p, xs, i) == IF i > Len(xs) THEN 0 ELSE IF PredFn(p, xs[i]) THEN i ELS
 \*  tables are computed once per case, whatever TLC's LET caching does)
 The(S) == CHOOSE r \in S : TRUE
 CutTo(xs, ended, kmax) == IF ended THEN xs ELSE SubSeq(xs, 1, IF Len(xs) < kmax THEN Len(xs) ELSE kmax)
-PredictWith(pipe, kmax, XS, tabs, alt) ==
+PredictWith(pipe, kmax, XS, tabs) ==
   LET M == Len(pipe)
       XM == XS[M + 1]
       dem(e, la) == DemandDown(pipe, XS, tabs, M, e, la)
@@ -222,20 +224,14 @@ PredictWith(pipe, kmax, XS, tabs, alt) ==
                 ELSE IF ended THEN [det |-> TRUE, found |-> FALSE, v |-> VNone, demLA |-> dem(Ev(XM), TRUE)]
                 ELSE [det |-> FALSE, found |-> FALSE, v |-> VNone, demLA |-> INF],
       \* all(): the whole list; terminates iff the pipeline ends
-      all   |-> IF ended THEN [det |-> TRUE, demLA |-> dem(Ev(XM), TRUE)] ELSE [det |-> FALSE, demLA |-> INF],
-      alt   |-> alt]
-PredictCore(pipe, srcd, kmax, horizon, alt) ==
-  The({ The({ PredictWith(pipe, kmax, XS, tabs, alt) : tabs \in {[i \in 1..Len(pipe) |-> NeedTable(pipe[i], XS[i])]} })
-        : XS \in {AllStreams(pipe, SrcStream(srcd, horizon))} })
-\* the same pipeline with the base stage's sentinel forgotten: used only to *classify* a
-\* disagreement of the implementation (known finding), never as a prediction
-SentinelForgotten(pipe) == [pipe EXCEPT ![1] = BaseStage(pipe[1].f, STOP, FALSE)]
-NoAlt == [on |-> FALSE]
+      all   |-> IF ended THEN [det |-> TRUE, demLA |-> dem(Ev(XM), TRUE)] ELSE [det |-> FALSE, demLA |-> INF]]
 Predict(pipe, srcd, kmax, horizon) ==
-  PredictCore(pipe, srcd, kmax, horizon,
-              IF pipe[1].b = 1 /\ Len(pipe) > 1
-              THEN [on |-> TRUE, p |-> PredictCore(SentinelForgotten(pipe), srcd, kmax, horizon, NoAlt)]
-              ELSE NoAlt)
+  The({ The({ PredictWith(pipe, kmax, XS, tabs) : tabs \in {[i \in 1..Len(pipe) |-> NeedTable(pipe[i], XS[i])]} })
+        : XS \in {AllStreams(pipe, SrcStream(srcd, horizon))} })
+
+\* the two quantities of the laziness law by name (k consumer calls, k <= kmax)
+Demand(pipe, srcd, k, horizon)   == Predict(pipe, srcd, k, horizon).dem[k + 1]
+DemandLA(pipe, srcd, k, horizon) == Predict(pipe, srcd, k, horizon).demLA[k + 1]
 
 IsPrefixOf(s, t) == Len(s) <= Len(t) /\ s = SubSeq(t, 1, Len(s))
 LeqInf(a, b) == b = INF \/ (a # INF /\ a <= b)
@@ -434,8 +430,9 @@ Derive(o, meth) ==
   /\ (old.cls = "iter") = (meth.m = "stage")
   /\ bhist' = Append(bhist, [o |-> o, meth |-> meth])
   /\ IF old.cls = "iter"
-     THEN LET sent == IF SentinelCarried THEN old.sent ELSE STOP
-              given == SentinelCarried /\ old.given
+     THEN LET carried == BuildMutant # "dropsentinel"      \* type(self)(subspec=.., sentinel=self.sentinel, ..)
+              sent == IF carried THEN old.sent ELSE STOP
+              given == carried /\ old.given
           IN IF BuildMutant = "inplace"
              THEN /\ cells' = [cells EXCEPT ![old.ref] = <<meth.st>> \o @]           \* list.insert(0, op)
                   /\ objs' = Append(objs, IterObj(old.sub, sent, given, old.ref))
